@@ -18,7 +18,9 @@ use crate::{
 };
 
 pub mod c01;
+pub mod c02;
 pub mod common;
+pub mod hon;
 
 #[derive(Debug, Clone, Copy, PartialEq, Eq)]
 pub enum Tier {
@@ -281,6 +283,18 @@ pub fn finish(ctx: &Ctx, rep: &Report, fin: Finish, wall_s: f64) -> i32 {
             *known_hit.entry(k.what.clone()).or_insert(0) += 1;
         } else {
             new_viol.push((g, idx, seed, v));
+        }
+    }
+    if ctx.prop == "ANY" {
+        let mut hist: BTreeMap<String, (u64, String)> = BTreeMap::new();
+        for (g, idx, _seed, v) in &rep.violations {
+            let mut sig = format!("{} {}", v.prop, normalize(&v.msg));
+            sig.truncate(150);
+            let e = hist.entry(sig).or_insert((0, format!("{g}#{idx}")));
+            e.0 += 1;
+        }
+        for (k, (n, first)) in &hist {
+            println!("SIG {n:5} first={first} {k}");
         }
     }
     for (what, n) in &known_hit {
